@@ -495,15 +495,16 @@ def _ck(c):
     return hashlib.sha1(json.dumps(c, sort_keys=True, default=str).encode()).hexdigest()
 
 
-def _train_data(c):
-    """-> (fit args tuple, fit kwargs, dict argid -> callable returning a FRESH argument tuple for apply calls)"""
+def _train_data(c, other=False):
+    """-> (fit args tuple, fit kwargs, dict argid -> callable returning a FRESH argument tuple for apply calls).
+    other=True: OTHER training data of the same shape (what a second object of the class is fitted on)."""
     e = table()[c["est"]]
-    fam, cont, seed, n = e["fam"], c["cont"], c["seed"], c["n"]
+    fam, cont, seed, n = e["fam"], c["cont"], c["seed"] + (13 if other else 0), c["n"]
     ik = c.get("ikind", "range")
     start = c.get("start", 0)
+    scale = (lambda z: z * 1.75 + 6.0) if other else (lambda z: z)
     if fam == "fc":
-        y = lambda: mk_series(seed, n, ik, start)
-
+        y = lambda: scale(mk_series(seed, n, ik, start))
         cutoff = start + n - 1
 
         def fh(a):
@@ -511,17 +512,18 @@ def _train_data(c):
                 from sktime.forecasting.base import ForecastingHorizon
                 return lambda: (ForecastingHorizon(np.array([cutoff + v for v in FH_ARGS[a]], dtype="int64"), is_relative=False),)
             return lambda: (list(FH_ARGS[a]),)
-        args = {"A": fh("A")}
+        fitfh = c.get("fitfh", "A")
+        args = {fitfh: fh(fitfh)}
         if e["mode"] == "o":
             for a in FH_OPTIONAL:
                 args[a] = fh(a)
-        return (lambda: (y(),)), {"fh": list(FH_ARGS["A"])}, args
+        return (lambda: (y(),)), {"fh": fh(fitfh)()[0]}, args
     if fam == "st":
         kw = dict(outlier=e.get("outlier", False), nan=e.get("nan", False))
         if cont == "Series":
-            mk = lambda s: mk_series(s, n, ik, start, **kw)
+            mk = lambda s: scale(mk_series(s, n, ik, start, **kw))
         else:
-            mk = lambda s: mk_frame(s, n, ik, start, **kw)
+            mk = lambda s: scale(mk_frame(s, n, ik, start, **kw))
         return (lambda: (mk(seed),)), {}, {"a": lambda: (mk(seed),), "b": lambda: (mk(seed + 1),)}
     # panel
     dims = e.get("dims", 1)
@@ -535,9 +537,23 @@ def _train_data(c):
     return (lambda: (X(seed), ytrain())), {}, {"a": lambda: (X(seed),), "b": lambda: (X(seed + 1),)}
 
 
+def _update_batch(c):
+    """the next three observations after the training series (for `update` on a copy)"""
+    n, start = c["n"], c.get("start", 0)
+    full = mk_series(c["seed"], n + 3, c.get("ikind", "range"), start)
+    return full.iloc[n:]
+
+
 def _mk_est(c, inst):
     e = table()[c["est"]]
     est = e["make"](rs_value(c), None)
+    if inst == "fd":
+        # another object of the same class, DEFAULT-constructed (falls back to equal parameters when the class
+        # has required constructor arguments)
+        try:
+            return type(est)()
+        except Exception:
+            return est
     if inst in ("j1", "j2", "j4", "f1", "f2", "f4"):
         nj = int(inst[1:])
         est = e["make"](rs_value(c), nj)
@@ -561,9 +577,20 @@ def est_state(est):
         # predict re-assigns `_y` through combine_first, which turns a RangeIndex into an equal Int64Index)
         out["fitted"] = repr(getattr(est, "_is_fitted", None))
         out["window_length_"] = repr(getattr(est, "window_length_", None))
+        fh = getattr(est, "_fh", None)
+        out["fh"] = "-" if fh is None else "%s:%s" % ("rel" if fh.is_relative else "abs", show_ints([int(v) for v in fh.to_pandas()]))
     except Exception:
         pass
     return out
+
+
+def copy_state_flag(orig, cp):
+    """a restored copy must have the observable state of the original, the stored horizon (values AND kind) included"""
+    a, b = est_state(orig), est_state(cp)
+    for k in ("cutoff", "y", "fitted", "window_length_", "fh"):
+        if a.get(k) != b.get(k):
+            return "F:copy-state-" + k
+    return "T"
 
 
 def state_flag(before, after):
@@ -581,40 +608,58 @@ def _call(fn, *a, **k):
             return fn(*a, **k)
 
 
+COPIES = ("pk", "dc", "pu")      # made from the original: pickle round trip, copy.deepcopy, pickle round trip then update
+FRESH = ("pu",)                  # rebuilt for every call, like every instance whose name starts with 'f'
+
+
 def run_seq(c):
-    """returns the observation dict (also cached)"""
+    """returns the observation dict (also cached).
+    instances: o original | jN j1 j2 j4 equal-parameter twins (that n_jobs) | fr f1 f2 f4 FRESHLY fitted twins |
+      pk pickle round trip of o | dc copy.deepcopy(o) | pu pickle round trip of o, then update (fresh per call) |
+      fu freshly fitted twin, then update | fo / fd ANOTHER object of the class (equal parameters / default-
+      constructed) fitted on OTHER data and used, between the calls on the others
+    argument ids: a b / A B I X a i x as before; N = predict() without a horizon (reported under the id of the
+      horizon in force: the one given last to that copy, or at fit); prefix u = `update(next 3 points)` first;
+      prefix z / y = the argument as seen by the fo / fd object (never compared with the others' results)"""
     warnings.filterwarnings("ignore")
     e = table()[c["est"]]
+    isfc = e["fam"] == "fc"
     fit_args, fit_kw, argmk = _train_data(c)
+    ofit_args, ofit_kw, _ = _train_data(c, other=True)
     obs = {"fit": None, "calls": [], "first": {}, "skipped": [], "cls": None, "errors": []}
     insts = {}
+    last_fh = {}         # instance -> id of the horizon in force
+    copy_flag = {}       # copy -> flag of its state against the original's, reported with its first call
 
     def fitted(inst):
-        """a fitted copy: 'o' original; jN/j1/j2/j4/tw equal-parameter twins; pk = pickle round trip of 'o'"""
-        if inst in insts and inst[0] != "f":        # 'fr' / 'f1' / 'f2' / 'f4' = a FRESHLY fitted twin (default n_jobs / that n_jobs) for this one call
+        if inst in insts and inst[0] != "f" and inst not in FRESH:
             return insts[inst]
-        if inst == "pk":
+        if inst in COPIES:
             o = fitted("o")
             if isinstance(o, str):
                 insts[inst] = o
                 return o
             try:
-                insts[inst] = pickle.loads(pickle.dumps(o))
+                insts[inst] = copy.deepcopy(o) if inst == "dc" else pickle.loads(pickle.dumps(o))
+                last_fh[inst] = last_fh.get("o")
+                if isfc:
+                    copy_flag[inst] = copy_state_flag(o, insts[inst])
             except Exception as ex:
                 msg = "%s: %s" % (type(ex).__name__, str(ex)[:300])
                 if "skcompat" in msg or "_Lenient" in msg or "_NpProxy" in msg:
-                    # the harness's own emulation layer is what cannot be pickled: not the estimator's doing
+                    # the harness's own emulation layer is what cannot be copied: not the estimator's doing
                     insts[inst] = "SKIP"
                     obs["skipped"].append("pickle-blocked-by-compat-shim")
                 else:
-                    insts[inst] = "E.pickle." + type(ex).__name__
-                    obs["errors"].append("pickle: " + msg)
+                    insts[inst] = ("E.deepcopy." if inst == "dc" else "E.pickle.") + type(ex).__name__
+                    obs["errors"].append("%s: %s" % (inst, msg))
             return insts[inst]
         est = _mk_est(c, inst)
-        a = fit_args()
+        other = inst in ("fo", "fd")
+        a = (ofit_args if other else fit_args)()
         before = snap_args(a)
         try:
-            _call(est.fit, *a, **fit_kw)
+            _call(est.fit, *a, **(ofit_kw if other else fit_kw))
         except Exception as ex:
             insts[inst] = _err(ex)
             obs["errors"].append("fit[%s]: %s: %s" % (inst, type(ex).__name__, str(ex)[:160]))
@@ -625,6 +670,7 @@ def run_seq(c):
             obs["fit"] = args_flag(before, snap_args(a))
             obs["cls"] = class_name(c["est"], est)
         insts[inst] = est
+        last_fh[inst] = c.get("fitfh", "A")
         return est
 
     o = fitted("o")
@@ -635,36 +681,54 @@ def run_seq(c):
     pending = []         # pairs only ever called on a copy that could not be built
     for inst, method, argid in c["calls"]:
         est = fitted(inst)
-        key = (method, argid)
         if isinstance(est, str) and est == "SKIP":
             continue
+        # ---- decode the argument id
+        pre, base = "", argid
+        if base[0] in "uzy" and len(base) > 1:
+            pre, base = base[0], base[1:]
+        default_call = base == "N"
+        if default_call:
+            base = last_fh.get(inst) or c.get("fitfh", "A")
+        rid = pre + base                      # the id the call is reported (and compared) under
+        key = (method, rid)
         if isinstance(est, str):
-            obs["calls"].append([inst, method, argid, "T", est])
-            pending.append(key)
+            obs["calls"].append([inst, method, rid, "T", est])
+            pending.append((key, est))
             continue
         if not hasattr(est, method):
-            obs["calls"].append([inst, method, argid, "T", "E.nomethod"])
+            obs["calls"].append([inst, method, rid, "T", "E.nomethod"])
             firsts.setdefault(key, ("E.nomethod", "E.nomethod", False))
             continue
-        a = argmk[argid]()
+        a = argmk[base]()
         before = snap_args(a)
-        st0 = est_state(est) if e["fam"] == "fc" else {}
+        st0 = est_state(est) if isfc else {}
         try:
-            if e["fam"] == "fc":
-                res = _call(getattr(est, method), a[0])
+            if pre == "u":
+                _call(est.update, _update_batch(c), update_params=False)
+                st0 = est_state(est)
+            if isfc:
+                res = _call(getattr(est, method)) if default_call else _call(getattr(est, method), a[0])
             else:
                 res = _call(getattr(est, method), *a)
             err = None
         except Exception as ex:
             res, err = None, _err(ex)
+        if isfc and not default_call and e["mode"] == "o":
+            last_fh[inst] = base
         flag = args_flag(before, snap_args(a))
-        if flag == "T" and e["fam"] == "fc":
-            flag = state_flag(st0, est_state(est))
+        if flag == "T" and isfc:
+            st1 = est_state(est)
+            st0.pop("fh", None); st1.pop("fh", None)       # predict(fh) may store the horizon it was given
+            flag = state_flag(st0, st1)
+        if flag == "T" and copy_flag.get(inst, "T") != "T":
+            flag = copy_flag[inst]
+        copy_flag.pop(inst, None)
         if key not in firsts:
             if err is not None:
                 firsts[key] = (err, err, False)
             else:
-                chg = not (e["fam"] != "fc" and snap(res)["values"] == before[0]["values"])
+                chg = not (not isfc and snap(res)["values"] == before[0]["values"])
                 firsts[key] = (res, result_digest(res), chg)
             dig = firsts[key][1]
         else:
@@ -676,9 +740,9 @@ def run_seq(c):
             else:
                 tol = 1e-9       # rounding-level differences (BLAS threading) are not what the property is about
                 dig = f0[1] if same_result(f0[0], res, tol) else result_digest(res)
-        obs["calls"].append([inst, method, argid, flag, dig])
-    for key in pending:
-        firsts.setdefault(key, ("E.nocopy", "E.nocopy", False))
+        obs["calls"].append([inst, method, rid, flag, dig])
+    for key, tok in pending:
+        firsts.setdefault(key, (tok, tok, False))
     obs["first"] = {"%s/%s" % k: [v[1], bool(v[2])] for k, v in firsts.items()}
     _OBS[_ck(c)] = obs
     return obs
@@ -828,6 +892,9 @@ def run_static(c):
     for it in r.get("truthy", []):
         new.append(("static:%s:%s:random_state-truthiness" % (it["file"], it["func"]),
                     "`%s` in %s (%s): the integer seed 0 is falsy and would be treated as unseeded" % (it["expr"], it["func"], it["file"])))
+    for it in r.get("shared", []):
+        new.append(("static:%s:%s:module-level-estimator-instance-used-without-clone" % (it["file"], it["func"]),
+                    "`%s` (module level) is used in %s (%s) without clone: all objects share and refit one instance" % (it["name"], it["func"], it["file"])))
     for it in r["parallel"]:
         new.append(("static:%s:%s:unordered-parallel-collection" % (it["file"], it["func"]), "%s in %s (%s)" % (it["what"], it["func"], it["file"])))
     _STATIC["new"] = sorted(set(new))
@@ -927,25 +994,36 @@ def oracle(c, out):
         if fit != "T":
             fails.append(("%s.fit(%s):caller-data-modified:%s" % (site, cont, fit[2:]), "fit changed the caller's argument (%s)" % fit[2:]))
         first = {}
+        other_before = False       # another object of the class has been fitted on other data and used by now
+        KIND = {"o": "repeat-differs", "fr": "differs-from-freshly-fitted-twin", "pk": "pickled-copy-differs",
+                "dc": "deep-copy-differs", "pu": "pickled-copy-then-update-differs", "fu": "pickled-copy-then-update-differs"}
         for inst, aid, flag, dig in calls:
             m = _MNAME[aid[0]]
+            if inst in ("fo", "fd"):
+                other_before = True
             if flag.startswith("F:state-"):
                 fails.append(("%s.%s:estimator-state-changed:%s" % (site, m, flag[8:]),
                               "%s(%s) changed the fitted estimator's %s (copy %s)" % (m, aid[1:], flag[8:], inst)))
+            elif flag.startswith("F:copy-state-"):
+                what = {"pk": "pickle round trip", "dc": "copy.deepcopy", "pu": "pickle round trip"}.get(inst, inst)
+                fails.append(("%s:restored-copy-state-differs:%s" % (site, flag[13:]),
+                              "after a %s the copy's %s differs from the original's" % (what, flag[13:])))
             elif flag != "T":
                 fails.append(("%s.%s(%s):caller-data-modified:%s" % (site, m, c["cont"], flag[2:]), "%s changed the caller's argument (%s), copy %s" % (m, flag[2:], inst)))
-            if dig.startswith("E.pickle"):
-                fails.append(("%s:pickle-round-trip-failed" % site, "pickle.loads(pickle.dumps(fitted estimator)) raised (%s)" % dig))
+            if dig.startswith("E.pickle") or dig.startswith("E.deepcopy"):
+                fails.append(("%s:%s-failed" % (site, "pickle-round-trip" if dig.startswith("E.pickle") else "deepcopy"), "copying the fitted estimator raised (%s)" % dig))
                 continue
             if aid not in first:
                 first[aid] = (inst, dig)
                 continue
             if dig != first[aid][1]:
-                kind = {"o": "repeat-differs", "fr": "differs-from-freshly-fitted-twin"}.get(inst, "pickled-copy-differs" if inst == "pk" else "equal-params-twin-differs")
+                kind = KIND.get(inst, "equal-params-twin-differs")
                 if first[aid][0] != "o" and inst == "o":
-                    kind = {"pk": "pickled-copy-differs", "fr": "differs-from-freshly-fitted-twin"}.get(first[aid][0], "equal-params-twin-differs")
+                    kind = KIND.get(first[aid][0], "equal-params-twin-differs")
+                if kind == "repeat-differs" and other_before:
+                    kind = "repeat-differs:other-object-in-between"
                 form = c.get("rsform", "int")
-                sfx = "" if form == "int" or kind == "repeat-differs" else ":random_state=" + form
+                sfx = "" if form == "int" or kind.startswith("repeat-differs") else ":random_state=" + form
                 fails.append(("%s.%s:%s%s" % (site, m, kind, sfx), "%s(%s) on copy %s returned %s, first result (copy %s) was %s%s" % (
                     m, aid[1:], inst, dig, first[aid][0], first[aid][1], "" if "rsform" not in c else " [random_state form: %s]" % form)))
         return fails
@@ -1057,11 +1135,14 @@ def _seq_case(rng, key, cont, quick, variant=0, rsform=None, compact=False):
     methods = [m for m in METHODS[fam] if hasattr(est, m)]
     has_nj = "n_jobs" in est.get_params(deep=False)
     slow = quick and key in SLOW
+    fitfh = "A"
     if fam == "fc":
+        # the horizon given at fit: relative or ABSOLUTE (predict() without a horizon must then keep using it, also on copies)
+        fitfh = ["A", "a"][(variant + rng.randrange(2)) % 2] if not quick else ["A", "a"][variant % 2]
         # horizons out-of-sample, in-sample and mixed, relative and absolute, interleaved on ONE object
-        argids = list(FH_OPTIONAL) if e["mode"] == "o" else ["A"]
+        argids = list(FH_OPTIONAL) if e["mode"] == "o" else [fitfh]
         if (slow or compact) and len(argids) > 4:
-            argids = ["A"] + rng.sample(["I", "X", "i", "x"], 2) + [rng.choice(["B", "a"])]
+            argids = [fitfh] + rng.sample(["I", "X", "i", "x"], 2) + [rng.choice(["B", "a" if fitfh == "A" else "A"])]
     else:
         argids = ["a", "b"]
     pairs = [(m, a) for m in methods for a in argids]
@@ -1070,9 +1151,13 @@ def _seq_case(rng, key, cont, quick, variant=0, rsform=None, compact=False):
         twins = ["j2"] if has_nj else ["jN"]
     # the original: every (method, argument) at least twice, interleaved
     seq = pairs * (1 if compact else 2) + [rng.choice(pairs) for _ in range(rng.randrange(1, 4))]
+    if fam == "fc":
+        seq += [(methods[0], "N")] * (2 if (slow or compact) else 3)       # predict() without a horizon
     rng.shuffle(seq)
     calls = [["o", m, a] for m, a in seq]
-    # twins and the pickled copy, inserted at random positions (the pickled copy after at least one call)
+    if fam == "fc":
+        calls.insert(0, ["o", methods[0], "N"])                            # ... also before any horizon was given to predict
+    # twins and the copies, inserted at random positions (copies after at least one call)
     # (copies are asked first about data they were NOT fitted on: a fully grown tree reproduces its training
     # labels whatever intervals / seeds it drew, so the training panel cannot tell two fits apart)
     fresh = [p for p in pairs if p[1] in ("b", "B")] or pairs
@@ -1084,8 +1169,9 @@ def _seq_case(rng, key, cont, quick, variant=0, rsform=None, compact=False):
             picks.append(rng.choice(pairs))
         for m, a in picks:
             extra.append([tw, m, a])
-    for m, a in [rng.choice(fresh), rng.choice(pairs)]:
-        extra.append(["pk", m, a])
+    for cp in ("pk", "dc"):
+        for m, a in [rng.choice(fresh), rng.choice(pairs)]:
+            extra.append([cp, m, a])
     # a FRESHLY fitted twin per call ('fr'): the reference no earlier call can have disturbed
     if fam == "fc":
         frp = list(pairs) if not (slow or compact) else rng.sample(pairs, min(2, len(pairs)))
@@ -1093,15 +1179,35 @@ def _seq_case(rng, key, cont, quick, variant=0, rsform=None, compact=False):
         frp = [rng.choice(fresh)]
     for m, a in frp:
         extra.append(["fr", m, a])
+    # ANOTHER object of the class (equal parameters / default-constructed) is fitted on OTHER data and used in between
+    mo, ao = rng.choice(fresh)
+    extra.append(["fo", mo, "z" + ao])
+    if fam in ("fc", "st") or (fam == "pt" and key not in SLOW and not e.get("slow")):
+        # (default-constructed classifiers / regressors / shapelet searches are far too expensive for a side object:
+        # 200-tree forests; for them the second object has equal parameters only)
+        extra.append(["fd", mo, "y" + ao])
     for x in extra:
         calls.insert(rng.randrange(1, len(calls) + 1), x)
+    if fam == "fc":
+        # the copies keep the horizon in force (values AND kind): predict() without a horizon on them, right after the
+        # copy is made and later; and the copy is run through a further update + predict, against a fresh twin doing the same
+        m = methods[0]
+        tail = [["pk", m, "N"], ["dc", m, "N"], ["pu", m, "uN"], ["fu", m, "uN"]]
+        if not (slow or compact):
+            tail += [["pu", m, "u" + fitfh], ["fu", m, "u" + fitfh], ["jN", m, "N"]]
+        for x in tail:
+            calls.insert(rng.randrange(2, len(calls) + 1), x)
+        # ... and once with the fit horizon still in force on every copy (before predict was given any horizon)
+        calls[1:1] = [["pk", m, "N"], ["dc", m, "N"]]
     n = rng.choice([24, 28, 32]) if fam in ("fc", "st") else rng.choice([16, 20])
     c = {"kind": "seq", "est": key, "cont": cont, "seed": rng.randrange(1, 10 ** 6), "n": n, "calls": calls}
+    if fam == "fc":
+        c["fitfh"] = fitfh
     if has_random_state(key):
         forms = [f for f in RS_FORMS if not (f == "rsobj" and e.get("no_rsobj"))]
         c["rsform"] = rsform if rsform in forms else forms[variant % len(forms)] if not quick else rng.choice([f for f in forms if f != "zero"])
     if fam in ("fc", "st"):
-        c["ikind"] = ["int64", "range"][(variant + rng.randrange(2)) % 2] if fam == "st" else ["int64", "range"][variant % 2]
+        c["ikind"] = ["int64", "range"][(variant + rng.randrange(2)) % 2] if fam == "st" else ["int64", "range"][(variant // 2 + rng.randrange(2)) % 2]
         c["start"] = 0
     else:
         c["ninst"] = rng.choice([8, 10])
